@@ -23,6 +23,8 @@ typedef struct {
 	uint16_t          port;
 	int               af; // address family
 	bool              closed;
+	bool              busy;      // a resolve or connect is in flight
+	bool              abandoned; // ... and nobody wants its result
 	nng_sockaddr      sa;
 	nni_tcp_dialer   *d;      // platform dialer implementation
 	nni_aio           resaio; // resolver aio
@@ -42,7 +44,11 @@ tcp_dial_cancel(nni_aio *aio, void *arg, nng_err rv)
 		nni_aio_list_remove(aio);
 		nni_aio_finish_error(aio, rv);
 
-		if (nni_list_empty(&d->conaios)) {
+		if (nni_list_empty(&d->conaios) && d->busy) {
+			// The operation in flight is of no use to anybody;
+			// its callback discards the result (a request that
+			// arrives before then starts afresh).
+			d->abandoned = true;
 			nni_aio_abort(&d->conaio, NNG_ECANCELED);
 			nni_aio_abort(&d->resaio, NNG_ECANCELED);
 		}
@@ -53,9 +59,12 @@ tcp_dial_cancel(nni_aio *aio, void *arg, nng_err rv)
 static void
 tcp_dial_start_next(tcp_dialer *d)
 {
-	if (nni_list_empty(&d->conaios)) {
+	// One operation at a time: an abandoned one is still in flight until
+	// its callback has run, and resaio/conaio cannot be used twice.
+	if (d->busy || nni_list_empty(&d->conaios)) {
 		return;
 	}
+	d->busy = true;
 	memset(&d->resolv, 0, sizeof(d->resolv));
 	d->resolv.ri_family  = d->af;
 	d->resolv.ri_passive = false;
@@ -74,8 +83,17 @@ tcp_dial_res_cb(void *arg)
 	int         rv;
 
 	nni_mtx_lock(&d->mtx);
+	if (d->abandoned && !d->closed) {
+		// Whoever this was for has gone; serve who is waiting now.
+		d->abandoned = false;
+		d->busy      = false;
+		tcp_dial_start_next(d);
+		nni_mtx_unlock(&d->mtx);
+		return;
+	}
 	if (d->closed || ((aio = nni_list_first(&d->conaios)) == NULL)) {
 		// ignore this.
+		d->busy = false;
 		while ((aio = nni_list_first(&d->conaios)) != NULL) {
 			nni_list_remove(&d->conaios, aio);
 			nni_aio_finish_error(aio, NNG_ECLOSED);
@@ -89,6 +107,7 @@ tcp_dial_res_cb(void *arg)
 		nni_aio_finish_error(aio, rv);
 
 		// try DNS again for next connection...
+		d->busy = false;
 		tcp_dial_start_next(d);
 
 	} else {
@@ -106,14 +125,20 @@ tcp_dial_con_cb(void *arg)
 	int         rv;
 
 	nni_mtx_lock(&d->mtx);
-	rv = nni_aio_result(&d->conaio);
-	if ((d->closed) || ((aio = nni_list_first(&d->conaios)) == NULL)) {
+	rv      = nni_aio_result(&d->conaio);
+	d->busy = false;
+	if ((d->closed) || (d->abandoned) ||
+	    ((aio = nni_list_first(&d->conaios)) == NULL)) {
+		d->abandoned = false;
 		if (rv == 0) {
 			// Make sure we discard the underlying connection.
 			nng_stream_close(nni_aio_get_output(&d->conaio, 0));
 			nng_stream_stop(nni_aio_get_output(&d->conaio, 0));
 			nng_stream_free(nni_aio_get_output(&d->conaio, 0));
 			nni_aio_set_output(&d->conaio, 0, NULL);
+		}
+		if (!d->closed) {
+			tcp_dial_start_next(d);
 		}
 		nni_mtx_unlock(&d->mtx);
 		return;
